@@ -259,6 +259,13 @@ pub fn run(seed: u64, thorough: bool, out_dir: &Path, scratch: &Path) -> Out {
                 if let Some(msg) = diff_dumps(&got, &want) {
                     viol.push(json!({"what": format!("after a crash and restart: {msg}"), "detail": ctx}));
                 }
+                // the proposal view rebuilt at start-up is the window over the stored main chain
+                {
+                    let w = (cfg.window.0, cfg.window.1);
+                    if { let (want, got) = crate::c20::views_raw(&node, w); want != got } {
+                        viol.push(json!({"what": "after the restart the snapshot's proposal view (set, gap) is not the proposal window over the stored main chain", "detail": ctx}));
+                    }
+                }
                 // stored-but-unverified blocks whose parent is verified must have been picked up
                 for b in &blocks {
                     let stored = node.shared.store().get_block_header(&b.hash()).is_some();
@@ -280,6 +287,9 @@ pub fn run(seed: u64, thorough: bool, out_dir: &Path, scratch: &Path) -> Out {
                 let snap = node.shared.snapshot();
                 if snap.tip_hash() != final_tip.hash() || u256_u128(snap.total_difficulty()) != final_td {
                     viol.push(json!({"what": "after the crash, restart and redelivery the node does not reach the tip of the run that never crashed", "detail": {"case": ctx, "tip": block_id.get(&snap.tip_hash()), "expected_tip": block_id.get(&final_tip.hash())}}));
+                }
+                if { let (want, got) = crate::c20::views_raw(&node, (cfg.window.0, cfg.window.1)); want != got } {
+                    viol.push(json!({"what": "after the crash, restart and redelivery the snapshot's proposal view is not the proposal window over the main chain", "detail": ctx}));
                 }
                 let got = dump_store(node.shared.store(), &block_id, &tx_id);
                 let main: Vec<BlockView> = final_main.iter().map(|id| if *id == 0 { consensus.genesis_block().clone() } else { blocks[*id as usize - 1].clone() }).collect();
